@@ -455,12 +455,12 @@ class Dispatcher(BaseDispatcher, Generic[ContextType]):
                         error=pjrpc.exceptions.InvalidRequestError(data="batch too large"),
                     )
                 else:
-                    response = self._batch_response(
-                        *(
-                            resp for resp in (self._request_handler(request, context) for request in request)
-                            if not isinstance(resp, UnsetType)
-                        ),
-                    )
+                    responses = [
+                        resp for resp in (self._request_handler(request, context) for request in request)
+                        if not isinstance(resp, UnsetType)
+                    ]
+                    # nothing is returned for a batch consisting of notifications only
+                    response = self._batch_response(*responses) if responses else UNSET
             else:
                 response = self._request_handler(request, context)
 
@@ -599,13 +599,13 @@ class AsyncDispatcher(BaseDispatcher, Generic[ContextType]):
                         error=pjrpc.exceptions.InvalidRequestError(data="batch too large"),
                     )
                 else:
-                    response = self._batch_response(
-                        *(
-                            resp
-                            for resp in await asyncio.gather(*(self._request_handler(req, context) for req in request))
-                            if resp
-                        ),
-                    )
+                    responses = [
+                        resp
+                        for resp in await asyncio.gather(*(self._request_handler(req, context) for req in request))
+                        if not isinstance(resp, UnsetType)
+                    ]
+                    # nothing is returned for a batch consisting of notifications only
+                    response = self._batch_response(*responses) if responses else UNSET
             else:
                 response = await self._request_handler(request, context)
 
